@@ -15,7 +15,7 @@ def run(tier, seed):
     rep = C.Report("C16", tier, seed)
     gate = C.proof_gate("C16")
     rng = random.Random(seed)
-    nprog = 30 if tier == "quick" else 300
+    nprog = 30 if tier == "quick" else 1500
     with C.Scratch("c16") as scratch:
         from . import implenv
         m = implenv.setup(scratch)
@@ -68,7 +68,7 @@ def run(tier, seed):
                 rep.samples.append(meta)
         # prevented calls: every nested memento call fails with RuntimeError instead of executing,
         # whether or not it is already memoized
-        for t in range(8 if tier == "quick" else 60):
+        for t in range(8 if tier == "quick" else 300):
             stats["prevent_cases"] += 1
             total += 1
             r = R.Runner(m, scratch, R.make_storage(rng.choice(["mem", "fs", "fs_cache"]), scratch, "v%d" % t))
